@@ -31,6 +31,13 @@ def inject(fmt, lines, cls, i=0):
     lines = list(lines)
     if cls == "no-marker":
         lines[0] = "x" + lines[0][1:]
+    elif cls == "blank-header":
+        lines[0] = ""                 # the header line is there but empty: no marker
+    elif cls in ("float-interior-minus", "float-two-dots", "float-trailing-minus"):
+        cols = lines[0].split("\t")
+        j = {"bedgraph": 3, "narrowpeak": 6}[fmt]
+        cols[j] = {"float-interior-minus": "10-20", "float-two-dots": "1.2.3", "float-trailing-minus": "7-"}[cls]
+        lines[0] = "\t".join(cols)
     elif cls == "no-plus":
         lines[2] = "x" + lines[2][1:]
     elif cls in ("non-numeric", "non-numeric-after-signed"):
@@ -177,9 +184,9 @@ def check_vector(v):
 
 # ------------------------------------------------------------------------------------------------ binding B
 BSETS = [("bed6", ["bad-symbol", "non-numeric", "non-numeric-after-signed", "non-numeric-score", "column-count", "extra-column", "double-columns"]),
-         ("narrowpeak", ["non-numeric-float", "bad-symbol"]),
-         ("vcf", ["non-numeric"]), ("gffc", ["non-numeric"]), ("bedgraph", ["non-numeric", "non-numeric-after-signed"]), ("bed3", ["non-numeric", "column-count", "extra-column", "double-columns"]),
-         ("fastq", ["no-marker", "no-plus"]), ("fasta2", ["no-marker"])]
+         ("narrowpeak", ["non-numeric-float", "bad-symbol", "float-interior-minus"]),
+         ("vcf", ["non-numeric"]), ("gffc", ["non-numeric"]), ("bedgraph", ["non-numeric", "non-numeric-after-signed", "float-interior-minus", "float-two-dots", "float-trailing-minus"]), ("bed3", ["non-numeric", "column-count", "extra-column", "double-columns"]),
+         ("fastq", ["no-marker", "no-plus", "blank-header"]), ("fasta2", ["no-marker", "blank-header"])]
 
 
 def record_trace(job):
